@@ -14,6 +14,10 @@ def describe(case, row):
     c = case["c"]
     if "PANIC" in p or "HANG" in p:
         op = p.split(":")[0].split("(")[0]
+        if c["fault"] == "eval":
+            return ":panic:%s:eval:%s:%s:%s" % (op, c["op"], c["a"], c["b"])
+        if c["fault"] == "eval_snippet":
+            return ":panic:%s:eval:%s" % (op, c["src"][:40])
         return ":panic:%s:%s" % (op, c["fault"])
     if "refused before evaluation" in p:
         return ":not-refused:%s:%s" % (c["fault"], c["pos"])
@@ -63,7 +67,9 @@ def run(tier, seed):
                             {"kind": "ingest-child", "probe": what, "depth": d})
                 break
     return ctx.finish(
-        rule="Fault enumeration: 35 faults (unresolvable symbol / predicate / key / variable ids, malformed operation sequences and closures, unknown operator kinds, versions 0, 2, 7, "
+        rule="Fault enumeration: adversarial but well-formed contents (13 binary operators x 7 x 7 extreme integer operands, written in the expression or supplied by "
+             "joined facts; 33 expression snippets: invalid / huge regexes, out-of-range get(), type errors inside closures, shadowed closure parameters, errors under lazy "
+             "operators and try_or, unknown extern functions) and 35 structural faults (unresolvable symbol / predicate / key / variable ids, malformed operation sequences and closures, unknown operator kinds, versions 0, 2, 7, "
              "2^32-1 and absent, redeclared symbols and keys, empty oneofs, ill-formed sets, empty / garbage payloads, deep nesting, 50k symbols) x 3 positions (authority, first-party "
              "block, third-party block), each minted as a correctly signed token; on each, every public operation of Biscuit, UnverifiedBiscuit and Authorizer incl. all accessor "
              "indices 0..3 and usize::MAX, snapshot round trip, attenuation and sealing (about 75 operations). Oracle: no panic, no hang, faults the spec places before evaluation "
